@@ -39,11 +39,42 @@ impl Repr {
     }
 }
 
-fn make_repr<G: LibG>(k: &BigUint, repr: &Repr) -> G {
+/// where the sent value comes from: k * generator, or (G1 only) the curve point with a chosen
+/// boundary x-coordinate, built through the public constructor from model-computed (x, y)
+#[derive(Clone, Debug, PartialEq, Eq, Serialize, Deserialize, Default)]
+pub struct FromX {
+    pub x: String,
+    pub y_odd: bool,
+}
+
+fn base_point<G: LibG>(k: &BigUint, from_x: &Option<FromX>) -> G {
+    if let Some(fx) = from_x {
+        if G::GRP == Grp::G1 {
+            let x = Q::new(from_be(&unhex(&fx.x)));
+            if let Some((x, y)) = model::g1_point_with_x(&x) {
+                let y = if y.is_odd() == fx.y_odd { y } else { y.neg() };
+                if let Some(p) = G::from_affine_parts(&[be32(&x.0)], &[be32(&y.0)]) {
+                    return p;
+                }
+            }
+        }
+    }
+    G::one() * fr_of(k)
+}
+
+fn make_repr<G: LibG>(k: &BigUint, from_x: &Option<FromX>, repr: &Repr) -> G {
     let r = model::r();
-    let base = G::one() * fr_of(k);
+    let base: G = base_point::<G>(k, from_x);
     match repr {
-        Repr::Jac => base,
+        Repr::Jac => {
+            if from_x.is_some() {
+                // a history-made Jacobian representative of the same point
+                let t = G::one() * fr_of(&BigUint::from(3u32));
+                (base + t) - t
+            } else {
+                base
+            }
+        }
         Repr::Norm => {
             let mut p = base;
             p.normalize();
@@ -51,12 +82,41 @@ fn make_repr<G: LibG>(k: &BigUint, repr: &Repr) -> G {
         }
         Repr::Sum(a) => {
             let a = from_be(&unhex(a)) % r;
-            let b = model::msub(k, &a, r);
-            G::one() * fr_of(&a) + G::one() * fr_of(&b)
+            if from_x.is_some() {
+                let t = G::one() * fr_of(&a);
+                (base - t) + t
+            } else {
+                let b = model::msub(k, &a, r);
+                G::one() * fr_of(&a) + G::one() * fr_of(&b)
+            }
         }
         Repr::Rescaled(lam) => base.rescale(&unhex(lam)).unwrap_or(base),
         Repr::AffineRt => base.affine_rt().unwrap_or(base),
     }
+}
+
+/// boundary x-coordinates that carry a G1 point (cofactor 1: every curve point is in G1):
+/// small integers, q-1 (the point (-1, +-2)), powers of two, values just below q, limb-sparse
+pub fn boundary_x(pr: &mut Prng) -> FromX {
+    let q = model::q();
+    let mut x = match pr.below(9) {
+        0 => q - 1u32,
+        1 => BigUint::from(pr.below(64)),
+        2 => BigUint::one() << (pr.below(255) as u32),
+        3 => q - 1u32 - pr.below(1 << 16),
+        4 => q - (BigUint::one() << (pr.below(192) as u32)),
+        5 => crate::world_fld::limb_sparse(pr, 4) % q,
+        6 => q - 1u32 - (crate::world_fld::limb_sparse(pr, 3)),
+        7 => crate::world_fld::limb_sparse(pr, 3),
+        _ => from_be(&pr.bytes(24)),
+    } % q;
+    for _ in 0..64 {
+        if model::g1_point_with_x(&Q::new(x.clone())).is_some() {
+            break;
+        }
+        x = (x + 1u32) % q;
+    }
+    FromX { x: hex(&be32(&x)), y_odd: pr.chance(1, 2) }
 }
 
 fn gen_repr(pr: &mut Prng, g: Grp) -> Repr {
@@ -82,8 +142,12 @@ fn gen_lambda(pr: &mut Prng, g: Grp) -> String {
     match g {
         Grp::G1 => hex(&be32(&pick(pr))),
         Grp::G2 => {
-            let im = if pr.chance(1, 4) { BigUint::zero() } else { pick(pr) };
-            let re = pick(pr);
+            // real, purely imaginary (structured z), or general lambda
+            let (re, im) = match pr.below(6) {
+                0 => (pick(pr), BigUint::zero()),
+                1 => (BigUint::zero(), pick(pr)),
+                _ => (pick(pr), pick(pr)),
+            };
             let mut v = be32(&im).to_vec();
             v.extend_from_slice(&be32(&re));
             hex(&v)
@@ -200,6 +264,8 @@ impl Fault {
 pub struct Wire8Spec {
     pub g: Grp,
     pub k: String,
+    #[serde(default)]
+    pub from_x: Option<FromX>,
     pub repr: Repr,
     pub fmt: Fmt,
     pub budget: u64,
@@ -250,10 +316,10 @@ fn coords(g: Grp, f: Fmt) -> (usize, usize) {
     }
 }
 
-fn sender_encode(g: Grp, k: &BigUint, repr: &Repr, fmt: Fmt) -> Vec<u8> {
+fn sender_encode(g: Grp, k: &BigUint, from_x: &Option<FromX>, repr: &Repr, fmt: Fmt) -> Vec<u8> {
     match g {
-        Grp::G1 => make_repr::<G1>(k, repr).enc(fmt),
-        Grp::G2 => make_repr::<G2>(k, repr).enc(fmt),
+        Grp::G1 => make_repr::<G1>(k, from_x, repr).enc(fmt),
+        Grp::G2 => make_repr::<G2>(k, &None, repr).enc(fmt),
     }
 }
 
@@ -368,7 +434,7 @@ fn apply(f: &Fault, msg: &[u8], g: Grp, fmt: Fmt) -> Option<Vec<u8>> {
             if kk.is_zero() {
                 return None;
             }
-            b = sender_encode(*g2, &kk, &Repr::Norm, *f2);
+            b = sender_encode(*g2, &kk, &None, &Repr::Norm, *f2);
         }
         Fault::Bytes { b: hb } => b = unhex(hb),
         _ => return None,
@@ -429,7 +495,7 @@ pub fn exec8(spec: &Wire8Spec, prop: &str) -> RunResult {
     let r = model::r();
     let k = from_be(&unhex(&spec.k)) % r;
     let k = if k.is_zero() { BigUint::one() } else { k };
-    let msg = match guarded(spec.budget * 8, || sender_encode(spec.g, &k, &spec.repr, spec.fmt)) {
+    let msg = match guarded(spec.budget * 8, || sender_encode(spec.g, &k, &spec.from_x, &spec.repr, spec.fmt)) {
         Ok(m) => m,
         Err(e) => {
             // the sender could not even encode: that is C10's business; nothing to deliver
@@ -515,6 +581,15 @@ pub fn generate8(seed: u64, index: u64, thorough: bool) -> Wire8Spec {
         for v in [q.clone(), q + 1u32, (BigUint::one() << 256) - 1u32, BigUint::zero(), q - 1u32, BigUint::one()] {
             ops.push(Fault::CoordSet { which, v: hex(&be32(&v)) });
         }
+        // q + (limb-sparse value below 2^192): out of range by an amount that leaves the top
+        // limb tied with q's while lower limbs wrap; and q - (such a value): in range, tied
+        for _ in 0..3 {
+            let sp = crate::world_fld::limb_sparse(&mut fr, 3);
+            ops.push(Fault::CoordSet { which, v: hex(&be32(&(q + &sp))) });
+            if sp < *q {
+                ops.push(Fault::CoordSet { which, v: hex(&be32(&(q - &sp))) });
+            }
+        }
     }
     ops.push(Fault::NegateY);
     ops.push(Fault::SwapHalves);
@@ -536,7 +611,10 @@ pub fn generate8(seed: u64, index: u64, thorough: bool) -> Wire8Spec {
     for l in [32usize, 33, 64, 65, 128, 129] {
         ops.push(Fault::Bytes { b: hex(&fr.bytes(l)) });
     }
-    Wire8Spec { g, k: hex(&be32(&k)), repr, fmt, budget: DEFAULT_BUDGET, ops }
+    // a quarter of the G1 messages carry a point with a boundary x-coordinate (leading zero
+    // limbs, top limb tied with q's, (-1, +-2), ...) instead of a multiple of the generator
+    let from_x = if g == Grp::G1 && pr.chance(1, 4) { Some(boundary_x(&mut pr)) } else { None };
+    Wire8Spec { g, k: hex(&be32(&k)), from_x, repr, fmt, budget: DEFAULT_BUDGET, ops }
 }
 
 // ---------------------------------------------------------------------------------------
@@ -924,6 +1002,8 @@ pub fn generate9(seed: u64, index: u64) -> Wire9Spec {
 pub struct Wire10Spec {
     pub g: Grp,
     pub k: String,
+    #[serde(default)]
+    pub from_x: Option<FromX>,
     pub budget: u64,
     /// representatives from which the value is sent
     pub ops: Vec<Repr>,
@@ -941,7 +1021,7 @@ fn model_affine<G: LibG, F: RF>(p: &G) -> Option<(F, F)> {
     Some((x.mul(&zi2), y.mul(&zi2.mul(&zi))))
 }
 
-fn round_trip<G: LibG, F: RF>(k: &BigUint, reprs: &[Repr], budget: u64, prop: &str, res: &mut RunResult, dg: &mut Digest) {
+fn round_trip<G: LibG, F: RF>(k: &BigUint, from_x: &Option<FromX>, reprs: &[Repr], budget: u64, prop: &str, res: &mut RunResult, dg: &mut Digest) {
     let mut first: Option<((F, F), Vec<Vec<u8>>)> = None;
     for (step, repr) in reprs.iter().enumerate() {
         res.steps += 1;
@@ -949,7 +1029,7 @@ fn round_trip<G: LibG, F: RF>(k: &BigUint, reprs: &[Repr], budget: u64, prop: &s
         let mut parity = "none";
         let mut abandoned = false;
         let r = guarded(budget * 16, || -> Check {
-            let p: G = make_repr::<G>(k, repr);
+            let p: G = make_repr::<G>(k, from_x, repr);
             // the oracle: SM9 encoding of P's own affine coordinates, computed in the model
             // from the representative's Jacobian triple. It does not depend on whether the
             // library's group arithmetic produced the "right" multiple (that is C16/C05).
@@ -1048,8 +1128,8 @@ pub fn exec10(spec: &Wire10Spec, prop: &str) -> RunResult {
     let k = from_be(&unhex(&spec.k)) % r;
     let k = if k.is_zero() { BigUint::one() } else { k };
     match spec.g {
-        Grp::G1 => round_trip::<G1, Q>(&k, &spec.ops, spec.budget, prop, &mut res, &mut dg),
-        Grp::G2 => round_trip::<G2, Q2>(&k, &spec.ops, spec.budget, prop, &mut res, &mut dg),
+        Grp::G1 => round_trip::<G1, Q>(&k, &spec.from_x, &spec.ops, spec.budget, prop, &mut res, &mut dg),
+        Grp::G2 => round_trip::<G2, Q2>(&k, &None, &spec.ops, spec.budget, prop, &mut res, &mut dg),
     }
     res.fingerprint = dg.0;
     res
@@ -1070,5 +1150,6 @@ pub fn generate10(seed: u64, index: u64) -> Wire10Spec {
         ops.push(Repr::Rescaled(gen_lambda(&mut pr, g)));
     }
     ops.push(Repr::AffineRt);
-    Wire10Spec { g, k: hex(&be32(&k)), budget: DEFAULT_BUDGET, ops }
+    let from_x = if g == Grp::G1 && pr.chance(1, 4) { Some(boundary_x(&mut pr)) } else { None };
+    Wire10Spec { g, k: hex(&be32(&k)), from_x, budget: DEFAULT_BUDGET, ops }
 }
